@@ -766,6 +766,10 @@ type c16Pools struct {
 	names  []string
 	tlds   []string
 	cnrVal map[string][]byte // (owner|i) -> binary container
+	// the last nAccSp / nCidSp / nOwnerSp entries of acc / cid / owner are
+	// legal legacy identifiers whose first bytes coincide with a prefix or a
+	// fixed key of the new or old layout ('a', 'x', 'o', "cnr", "notary", ...)
+	nAccSp, nCidSp, nOwnerSp int
 }
 
 func newC16Pools() *c16Pools {
@@ -795,6 +799,23 @@ func newC16Pools() *c16Pools {
 	}
 	for i := 0; i < 6; i++ {
 		p.junk = append(p.junk, rb(3+i*3))
+	}
+	lookalike := func(n int, pfx string) []byte {
+		b := rb(n)
+		copy(b, pfx)
+		return b
+	}
+	for _, pfx := range []string{"a", "aa", "MainnetGAS", "notary", "ballots"} {
+		p.acc = append(p.acc, lookalike(20, pfx))
+		p.nAccSp++
+	}
+	for _, pfx := range []string{"x", "o", "d", "n", "u", "r", "m", "cnr", "eACL", "est", "nnsHasAlias", "notary"} {
+		p.cid = append(p.cid, lookalike(32, pfx))
+		p.nCidSp++
+	}
+	for _, pfx := range []string{"o", "x", "cnr"} {
+		p.owner = append(p.owner, lookalike(25, pfx))
+		p.nOwnerSp++
 	}
 	p.tlds = []string{"neofs", "container", "org"}
 	p.names = []string{"netmap.neofs", "balance.neofs", "a.container", "b.container", "x.org", "deep.x.org"}
@@ -973,6 +994,28 @@ func (l *legacy) hostile(r *rand.Rand, p *c16Pools, lens ...int) {
 	}
 }
 
+// choose picks n indices out of total; in two cases out of three at least one
+// of them (up to three) comes from the nSp "lookalike" entries at the end.
+func choose(r *rand.Rand, total, nSp, n int) []int {
+	idx := r.Perm(total)[:n]
+	if n == 0 || nSp == 0 || r.Intn(3) == 0 {
+		return idx
+	}
+	have := map[int]bool{}
+	for _, i := range idx {
+		have[i] = true
+	}
+	for k := 0; k < 1+r.Intn(3) && k < n; k++ {
+		sp := total - nSp + r.Intn(nSp)
+		if !have[sp] {
+			have[idx[k]] = false
+			idx[k] = sp
+			have[sp] = true
+		}
+	}
+	return idx
+}
+
 func genBalance(t testing.TB, r *rand.Rand, p *c16Pools, v int64) *legacy {
 	l := newLegacy("balance", v)
 	n := r.Intn(21)
@@ -980,7 +1023,11 @@ func genBalance(t testing.TB, r *rand.Rand, p *c16Pools, v int64) *legacy {
 		n = 0
 	}
 	l.shape(fmt.Sprintf("accounts:%d", n))
-	for _, i := range r.Perm(len(p.acc))[:n] {
+	sel := choose(r, len(p.acc), p.nAccSp, n)
+	for _, i := range sel {
+		if i >= len(p.acc)-p.nAccSp {
+			l.shape("account:lookalike")
+		}
 		bal := []int64{0, 1, 1000, 5_0000_0000, 1 << 40}[r.Intn(5)]
 		var parent stackitem.Item = stackitem.Null{}
 		until := int64(0)
@@ -1030,9 +1077,15 @@ func genContainer(t testing.TB, r *rand.Rand, p *c16Pools, v int64) *legacy {
 		pre = r.Intn(4) // some containers already in the new layout
 	}
 	l.shape(fmt.Sprintf("containers:%d+%d", n, pre))
-	perm := r.Perm(len(p.cid))
+	perm := choose(r, len(p.cid), p.nCidSp, n+pre)
 	for j, i := range perm[:n+pre] {
 		cid := p.cid[i]
+		if i >= len(p.cid)-p.nCidSp {
+			l.shape("cid:lookalike")
+		}
+		if i%len(p.owner) >= len(p.owner)-p.nOwnerSp {
+			l.shape("owner:lookalike")
+		}
 		// attributes are a function of the id (keeps the number of distinct values small)
 		ow := p.owner[i%len(p.owner)]
 		tr := c16CnrTruth{value: p.container(ow, i), sig: p.junk[3], pub: p.pub[i%len(p.pub)], token: [][]byte{{}, p.junk[1]}[i%2], owner: ow}
@@ -1182,6 +1235,15 @@ func genNetmap(t testing.TB, r *rand.Rand, p *c16Pools, v int64) *legacy {
 		l.keep(cat([]byte("p"), []byte{0, 0, 0, 7}, p.pub[1]), p.junk[2])
 		l.keep([]byte("candidat"), p.junk[0])
 		l.keep([]byte("snapshot"), p.junk[0])
+		// lookalikes of the migrated shapes: a snapshot key with a two-byte
+		// index, the bare prefix, keys that continue a fixed key, and an entry
+		// under the subscribers prefix that is not an indexed hash
+		l.keep([]byte("snapshot_\x00\x00"), ser(t, siArray(siStruct(siBytes(p.blob[1])))))
+		l.keep([]byte("snapshot_"), p.junk[1])
+		l.keep([]byte("snapshotCountX"), p.junk[1])
+		l.keep([]byte("balanceScriptHashX"), p.acc[4])
+		l.keep([]byte("notaryX"), []byte{1})
+		l.keep([]byte("ep"), p.junk[2])
 		l.shape("neighbours")
 	}
 	return l
@@ -1670,20 +1732,20 @@ func (r *c16Run) checkNetmap(v *Env, h util.Uint160, l *legacy, am map[string][]
 		}
 	}
 	if tr.subs != nil {
-		var got [][]byte
-		for _, kv := range c16Dump(func() map[string]string {
-			m := map[string]string{}
-			for k, x := range am {
-				m[k] = string(x)
-			}
-			return m
-		}()) {
-			if len(kv.K) > 2 && kv.K[0] == 'e' {
-				got = append(got, kv.K[2:])
+		for i, h := range tr.subs {
+			k := string(cat([]byte("e"), []byte{byte(i)}, h))
+			if x, ok := am[k]; !ok || len(x) != 0 {
+				bad("new-epoch subscriber %d is not the stored %s hash", i, []string{"balance", "container"}[i])
 			}
 		}
-		if len(got) != 2 || !bytes.Equal(got[0], tr.subs[0]) || !bytes.Equal(got[1], tr.subs[1]) {
-			bad("new-epoch subscribers are not [balance, container]")
+		for k := range am {
+			if k[0] != 'e' {
+				continue
+			}
+			_, keep := l.untouched[k]
+			if !keep && k != string(cat([]byte("e\x00"), tr.subs[0])) && k != string(cat([]byte("e\x01"), tr.subs[1])) {
+				bad("unexpected key %x under the subscribers prefix", k)
+			}
 		}
 	}
 }
@@ -1823,6 +1885,32 @@ func (r *c16Run) corpus() []*legacy {
 			}
 		})
 	}
+	// legacy identifiers that start with a byte of the new layout: an account 'a'..., a container
+	// id 'x'... owned by 'o'..., an id "cnr"... (none of them may be lost or left behind)
+	mk("balance", 19999, func(l *legacy) {
+		for i := len(p.acc) - p.nAccSp; i < len(p.acc); i++ {
+			l.put(p.acc[i], acct(int64(100+i)))
+			l.balances[string(p.acc[i])] = int64(100 + i)
+			l.supply += int64(100 + i)
+			l.gone = append(l.gone, string(p.acc[i]))
+		}
+		l.put(p.acc[0], acct(5))
+		l.balances[string(p.acc[0])] = 5
+		l.supply += 5
+		l.keep([]byte("MainnetGAS"), intBytes(l.supply))
+		l.shape("corpus:accounts-starting-with-prefix-bytes")
+	})
+	mk("container", 19999, func(l *legacy) {
+		for i := len(p.cid) - p.nCidSp; i < len(p.cid); i++ {
+			cid, ow := p.cid[i], p.owner[i%len(p.owner)]
+			tr := c16CnrTruth{value: p.container(ow, i), sig: p.junk[3], pub: p.pub[0], token: []byte{}, owner: ow}
+			l.put(cid, ser(t, siStruct(siBytes(tr.value), siBytes(tr.sig), siBytes(tr.pub), siBytes(tr.token))))
+			l.put(cat(ow, cid), cid)
+			l.gone = append(l.gone, string(cid), string(cat(ow, cid)))
+			l.cnrs[string(cid)] = tr
+		}
+		l.shape("corpus:ids-and-owners-starting-with-prefix-bytes")
+	})
 	// premise of C16_preserves_balance: a prefixed key colliding with an account is overwritten
 	mk("balance", 19000, func(l *legacy) {
 		l.put(p.acc[0], acct(10))
